@@ -8,7 +8,7 @@
    ([regs_wf]) and the CFI oracle only returns register values that fit (they went through
    C::Register::try_from in CfiStackWalker). *)
 From Coq Require Import Lia ZArith List.
-From RM Require Import C05.Model C05.ModelTail C05.Proofs C05.ProofsTail C05.Driver C05.ProofsModules C05.ProofsCfi C05.ProofsFunction.
+From RM Require Import C05.Model C05.ModelTail C05.Proofs C05.ProofsTail C05.Driver C05.ProofsModules C05.ProofsCfi C05.ProofsFunction C05.ProofsValid.
 From RM Require C06.Model C11.Model C11.Proofs2.
 Import ListNotations.
 Open Scope Z_scope.
@@ -440,3 +440,159 @@ Proof.
   split; [vm_compute; reflexivity|].
   eexists. split; vm_compute; reflexivity.
 Qed.
+
+(* ==== round 5, second pass: the scan acceptance test, ptr_auth_strip, trusts and stack-memory edge cases ================ *)
+
+(* Every frame a walk marks `scan` passed the acceptance test of the scan loop: the architecture's own front test
+   ([a_pre_ok], = <arch>::instruction_seems_valid up to the call of instruction_seems_valid_by_symbols) and the symbol-based
+   test ([instr_valid]).  For every architecture description, every oracle, every repair setting, both profiles, any fuel:
+   no hypothesis at all. *)
+Theorem c05_scan_accepted :
+  forall fx p a os mem module_at max_module_addr cfi_walk instr_valid fuel r v f0 rest,
+    walk_stack fx p a os mem module_at max_module_addr cfi_walk instr_valid fuel r v = Ret (f0 :: rest) ->
+    Forall (fun f => f_trust f = TScan -> a_pre_ok a (f_resume f) = true /\ instr_valid (f_resume f) = true) rest.
+Proof. exact stack_scan_accepts. Qed.
+Print Assumptions c05_scan_accepted.
+
+(* The tests themselves, as the Rust text has them now (Gen/UnwindTail.v): the front test of every architecture id of the
+   driver is the generated `<arch>_instr_pre_ok`; amd64 / arm64 frame-pointer frames use the same generated is_non_canonical;
+   the driver's symbol-based test IS the generated body of lib.rs instruction_seems_valid_by_symbols (over C08's module lookup
+   and the case's symbol files) and reads: ra - 1 (saturating) is not 0, lies in a module, and that module has no symbol file
+   or a function covering ra - 1. *)
+Theorem c05_instr_valid_pinned :
+  (forall archid x, a_pre_ok (arch_of archid) x = pre_ok_of archid x) /\
+  (forall x, a_canon_fp amd64 x = negb (amd64_is_non_canonical x)) /\
+  (forall x, a_canon_fp arm64 x = negb (arm64_is_non_canonical x)) /\
+  (forall mods x, d_instr_valid mods x = lib_isv_by_symbols (mod_of mods) d_fill x) /\
+  (forall mods x, d_instr_valid mods x =
+     (let i := sat_sub x 1 in
+      if i =? 0 then false
+      else match mod_of mods i with
+           | None => false
+           | Some (b, _, None) => true
+           | Some (b, _, Some s) =>
+               let addr := i - b in
+               match s_table s with
+               | Some t => match table_fill t addr with Some _ => true | None => false end
+               | None => (0 <? s_func_size s) && (s_func_lo s <=? addr) && (addr <? s_func_lo s + s_func_size s)
+               end
+           end)).
+Proof.
+  exact (conj pre_ok_pinned (conj (proj1 canon_fp_pinned) (conj (proj2 canon_fp_pinned)
+        (conj (fun mods x => eq_refl) d_instr_valid_spec)))).
+Qed.
+Print Assumptions c05_instr_valid_pinned.
+
+(* the generated instruction_seems_valid_by_symbols, for ANY module lookup and ANY symbol provider behaviour: an accepted
+   address is at least 2, the address before it is inside some module, and fill_symbol for that module either failed (no
+   symbols) or set a function with a non-empty name; 0 and 1 are always rejected *)
+Theorem c05_isv_by_symbols_sound :
+  forall (M : Type) (module_at : Z -> option M) (fill : M -> Z -> option (option bool)) x,
+    (lib_isv_by_symbols module_at fill x = true ->
+       2 <= x /\ exists m, module_at (x - 1) = Some m /\ (fill m (x - 1) = None \/ fill m (x - 1) = Some (Some false))) /\
+    (x <= 1 -> lib_isv_by_symbols module_at fill x = false).
+Proof. intros M ma fill x. exact (conj (isv_by_symbols_true M ma fill x) (isv_by_symbols_rejects_low M ma fill x)). Qed.
+Print Assumptions c05_isv_by_symbols_sound.
+
+(* end to end for the walker the correspondence run executes (generated tail, stop guard, resolve flavour and
+   instruction_seems_valid_by_symbols; modules through C08): every scan frame's return address ra passed the generated front
+   test, ra >= 2, and ra - 1 is covered by a listed module [b, b + s) which has no symbol file or a FUNC record covering ra - 1 *)
+Theorem c05_scan_in_module :
+  forall archid mem mods regnames lrname p os fuel r v f0 rest,
+    Forall (fun m => 0 <= fst (fst m) /\ 0 <= snd (fst m)) mods ->
+    run_profile_gen (arch_of archid) mem mods regnames lrname (tail_of archid) p os fuel r v = Ret (f0 :: rest) ->
+    Forall (fun f => f_trust f = TScan ->
+              pre_ok_of archid (f_resume f) = true /\ 2 <= f_resume f /\
+              exists b s y, mod_of mods (f_resume f - 1) = Some (b, s, y) /\ b <= f_resume f - 1 < b + s /\
+                            (y = None \/ d_fill (b, s, y) (f_resume f - 1) = Some (Some false))) rest.
+Proof.
+  intros id mem mods regnames lrname p os fuel r v f0 rest Hm H.
+  destruct (driver_gen_scan_in_module id mem mods regnames lrname p os fuel r v f0 rest Hm H) as [Q1 Q2].
+  rewrite Forall_forall in *. intros f Hin T.
+  destruct (Q1 f Hin T) as [_ [G E]]. exact (conj (Q2 f Hin T) (conj G E)).
+Qed.
+Print Assumptions c05_scan_in_module.
+
+(* arm64.rs ptr_auth_strip statement by statement as the source has it (`(1 << 47) - 1`, by_addr().next_back(),
+   saturating_add, u64::max, checked_next_power_of_two, `high_bit - 1`, `!0`, `ptr & mask`; Gen/UnwindTail.v): for every
+   64-bit pointer and every module list it never traps in either profile, it equals the arithmetic form of Model.v
+   (ptr mod 2^k, the object of c05_ptr_auth_strip_sound), and it never grows a pointer *)
+Theorem c05_ptr_auth_strip_source :
+  forall p module_end x, 0 <= x < 2 ^ 64 ->
+    arm64_ptr_auth_strip_src p module_end x = Ret (ptr_auth_strip (arm64_max_module_addr module_end) x) /\
+    0 <= ptr_auth_strip (arm64_max_module_addr module_end) x <= x.
+Proof.
+  intros p me x Hx. split; [exact (strip_src_is_model p me x Hx)|].
+  apply (strip_bounds (arm64_max_module_addr me) x). lia.
+Qed.
+Print Assumptions c05_ptr_auth_strip_source.
+
+(* the FrameTrust every technique stamps on its frames, read from the only StackFrame constructions of minidump-unwind, is
+   the one the model's cascade uses; FrameTrust::CfiScan / PreWalked / None are constructed nowhere (the translator aborts
+   on any other construction site), so c05_frame_shape's trust set is exhaustive for this code *)
+Theorem c05_trusts_pinned :
+  [x86_trust_cfi; x86_trust_fp; x86_trust_scan] = map trust_code [TCfi; TFramePointer; TScan] /\
+  [amd64_trust_cfi; amd64_trust_fp; amd64_trust_scan] = map trust_code [TCfi; TFramePointer; TScan] /\
+  [arm_trust_cfi; arm_trust_fp; arm_trust_scan] = map trust_code [TCfi; TFramePointer; TScan] /\
+  [arm64_trust_cfi; arm64_trust_fp; arm64_trust_scan] = map trust_code [TCfi; TFramePointer; TScan] /\
+  [mips_trust_cfi; mips_trust_scan32; mips_trust_scan64] = map trust_code [TCfi; TScan; TScan] /\
+  lib_trust_context_frame = trust_code TContext /\
+  arm64_strip_which_module_last = true.
+Proof. exact trusts_pinned. Qed.
+Print Assumptions c05_trusts_pinned.
+
+(* stack memory edge cases of the quantifier: an empty stack memory, or one whose end does not fit a u64
+   (memory_range() is None), yields exactly the context frame -- any architecture, oracle, profile, fuel.
+   (A memory that ends at 2^64 - 2, the highest walkable one, is covered by the general theorems; see
+   c05_nonvacuous_stack_at_top.) *)
+Theorem c05_stack_memory_edges :
+  forall fx p a os mem module_at max_module_addr cfi_walk instr_valid fuel r v,
+    (m_bytes mem = [] \/ 2 ^ 64 <= m_base mem + Z.of_nat (length (m_bytes mem))) ->
+    walk_stack fx p a os mem module_at max_module_addr cfi_walk instr_valid fuel r v = Ret [from_context r v TContext].
+Proof.
+  intros fx p a os mem ma mm cw iv fuel r v [H|H].
+  - exact (empty_stack_only_context fx p a os mem ma mm cw iv fuel r v H).
+  - exact (wrapping_stack_only_context fx p a os mem ma mm cw iv fuel r v H).
+Qed.
+Print Assumptions c05_stack_memory_edges.
+
+(* ---- non-vacuity of the second pass *)
+(* a 16-byte amd64 stack whose last byte is at 2^64 - 2: the scan finds the return address in the last word, the caller's
+   stack pointer is 2^64 - 1 (no overflow trap in either profile), and the walk stops there; moved up by one byte the
+   memory is not walkable at all *)
+Definition nv_top_mem : memory :=
+  {| m_base := 18446744073709551599; m_bytes := [0;0;0;0;0;0;0;0; 0;1;0;192;0;116;0;0] |}.
+Definition nv_top_regs : regs := {| r_ip := 127546570047568; r_sp := 18446744073709551599; r_fp := 0; r_lr := 0; r_gp := [] |}.
+Example c05_nonvacuous_stack_at_top :
+  mem_wf nv_top_mem /\ regs_wf amd64 nv_top_regs /\
+  m_base nv_top_mem + Z.of_nat (length (m_bytes nv_top_mem)) = 2 ^ 64 - 1 /\
+  (forall p, exists f0 f1,
+     walk_stack current_code p amd64 OS_OTHER nv_top_mem (fun _ => None) 0 (fun _ _ _ => None) (fun _ => true) (fuel_for nv_top_mem) nv_top_regs VAll
+       = Ret [f0; f1] /\
+     f_trust f1 = TScan /\ f_resume f1 = 127546570047744 /\ r_sp (f_regs f1) = 2 ^ 64 - 1) /\
+  walk_stack current_code Debug amd64 OS_OTHER {| m_base := 18446744073709551600; m_bytes := m_bytes nv_top_mem |}
+      (fun _ => None) 0 (fun _ _ _ => None) (fun _ => true) 100 nv_top_regs VAll = Ret [from_context nv_top_regs VAll TContext].
+Proof.
+  split; [split; [cbn; lia | repeat constructor; lia]|].
+  split; [unfold regs_wf, in_slot; cbn; lia|].
+  split; [reflexivity|].
+  split.
+  - intros p. eexists; eexists. split; [destruct p; vm_compute; reflexivity|]. cbn. repeat split; reflexivity.
+  - apply c05_stack_memory_edges. right. cbn. lia.
+Qed.
+
+(* the generated acceptance test accepts and rejects: with one module [0x10000, 0x20000) and no symbols, 0x10001..0x20000
+   are accepted (ra - 1 inside the module), 0x10000 and 0x20001 are not *)
+Example c05_nonvacuous_instr_valid :
+  d_instr_valid [(65536, 65536, None)] 65537 = true /\ d_instr_valid [(65536, 65536, None)] 131072 = true /\
+  d_instr_valid [(65536, 65536, None)] 65536 = false /\ d_instr_valid [(65536, 65536, None)] 131073 = false /\
+  amd64_instr_pre_ok 127546570047744 = true /\ amd64_instr_pre_ok 140737488355328 = false /\ amd64_instr_pre_ok 0 = false /\
+  arm64_instr_pre_ok 4095 = false /\ arm64_instr_pre_ok 4096 = true /\ mips_instr_pre_ok 4095 = false /\ x86_instr_pre_ok 1 = true.
+Proof. repeat split; vm_compute; reflexivity. Qed.
+
+(* ptr_auth_strip as generated: authentication bits above bit 47 go away, and a module above 2^47 widens the mask *)
+Example c05_nonvacuous_strip :
+  arm64_ptr_auth_strip_src Debug None (2 ^ 60 + 2 ^ 48 + 4198400) = Ret 4198400 /\
+  arm64_ptr_auth_strip_src Release (Some (2 ^ 48, 1048576)) (2 ^ 60 + 2 ^ 48 + 4198400) = Ret (2 ^ 48 + 4198400) /\
+  arm64_ptr_auth_strip_src Debug (Some (2 ^ 64 - 4096, 8192)) (2 ^ 64 - 1) = Ret (2 ^ 64 - 1).
+Proof. repeat split; vm_compute; reflexivity. Qed.
